@@ -312,15 +312,23 @@ class LineTracer:
         self.want = {}      # (abs filename, function name) -> qualified name
         self.seen = {}      # qualified name -> set of executed line numbers
         self.codes = {}     # qualified name -> code object
+        self.names = set()
+        self._rp = {}
         for rel, names in anchors:
             path = os.path.realpath(os.path.join(REPO, rel))
             for q in names:
                 self.want[(path, q.split(".")[-1])] = f"{rel}:{q}"
+                self.names.add(q.split(".")[-1])
 
     def _global(self, frame, event, arg):
         co = frame.f_code
-        key = (os.path.realpath(co.co_filename), co.co_name)
-        q = self.want.get(key)
+        if co.co_name not in self.names:      # cheap early exit: this is called on every Python call
+            return None
+        fn = co.co_filename
+        rp = self._rp.get(fn)
+        if rp is None:
+            rp = self._rp[fn] = os.path.realpath(fn)
+        q = self.want.get((rp, co.co_name))
         if q is None:
             return None
         self.codes.setdefault(q, co)
